@@ -25,7 +25,6 @@ ENC = [
  ("Elongate3D", 3, [("sdf",3)], [], False),
  ("Shell3D", 3, [("sdf",3)], [], True),
  ("Offset3D", 3, [("sdf",3)], ["sdf.BoundingBox().Size().X + 2*offset >= 0", "sdf.BoundingBox().Size().Y + 2*offset >= 0", "sdf.BoundingBox().Size().Z + 2*offset >= 0"], False),
- ("RotateCopy3D", 3, [("sdf",3)], ["num > 0"], False),
  ("Circle2D", 2, [], [], True),
  ("Box2D", 2, [], ["size.X > 0 && size.Y > 0", "round >= 0", "2*round <= size.X && 2*round <= size.Y"], False),
  ("Line2D", 2, [], ["l >= 0", "round >= 0"], False),
@@ -38,7 +37,6 @@ ENC = [
  ("Center2D", 2, [("s",2)], [], False),
  ("CenterAndScale2D", 2, [("s",2)], ["k > 0"], False),
  ("Elongate2D", 2, [("sdf",2)], [], False),
- ("RotateCopy2D", 2, [("sdf",2)], ["n > 0"], False),
  ("Slice2D", 2, [("sdf",3)], ["n.X*n.X + n.Y*n.Y + n.Z*n.Z > 0"], False),
 ]
 
